@@ -106,6 +106,8 @@ func (x *Ex) genFuncsMore(body *LeanFile) {
 	// the scanning half of FindOutlink is what hook VerifNumberGroups repeats
 	x.bodyStmts(body, "internal/pagination", "PageNumberFinder", "FindOutlink", "numberFindOutlinkBody", "C16", "C17")
 	x.bodyStmts(body, "internal/pagination", "PrevNextFinder", "FindPagination", "prevNextFindPaginationBody", "C16", "C17")
+	// the prefix test whose success licenses `linkHref[lenPrefix:]` in PrevNextFinder.FindOutlink
+	x.bodyStmts(body, "internal/stringutil", "", "HasPrefixIgnoreCase", "hasPrefixIgnoreCaseBody", "C01", "C16")
 }
 
 func (x *Ex) genInventory() string {
